@@ -16,7 +16,7 @@ def run(ctx):
                        "unschedulable nodes, pods with node selectors, required node affinity (In/NotIn), tolerations (Equal/Exists), pod labels and "
                        "required pod (anti-)affinity terms on hostname/zone, under allocate, reclaim, preempt and consolidation over 1-3 cycles; "
                        "non-trivial = a constrained scenario in which the real scheduler placed something")
-    ctx.assumptions += ["topology constraints: one topology object (1-3 levels, nodes missing labels), required level on the pod group; sub-group level and preferred levels are not generated; NodePorts, volume and DRA constraints are not generated",
+    ctx.assumptions += ["topology constraints: one topology object (1-3 levels, nodes missing labels), required level on the pod group; sub-group level constraints (flat pod sets and a parent sub-group) are generated in profile topo; preferred levels are soft and not judged; NodePorts, volume and DRA constraints are not generated",
                         "the spec restates the upstream filter semantics (InterPodAffinity incl. the self-affinity bootstrap rule) independently"]
     n = 1600 if ctx.quick else 16000
     st_cluster.run_stage(ctx, PREFIXES, [("constr", n * 2 // 3), ("topo", n // 3)], nontrivial_fn=nontrivial)
